@@ -174,6 +174,15 @@ func (g *opsGen) stmt(s ast.Stmt) (out []string) {
 		for _, r := range x.Rhs {
 			out = append(out, g.expr(r)...)
 		}
+		if len(x.Lhs) == 1 && len(x.Rhs) == 1 {
+			// a plain value stored in a local or named result: status = osutil.ExitCodeFailure
+			if _, isID := x.Lhs[0].(*ast.Ident); isID {
+				switch x.Rhs[0].(type) {
+				case *ast.Ident, *ast.SelectorExpr, *ast.BasicLit:
+					out = append(out, op("assign", g.norm(g.text(x))))
+				}
+			}
+		}
 		for _, l := range x.Lhs {
 			t := g.norm(selText(l))
 			if strings.HasPrefix(t, "@.") || t == "*@" {
@@ -422,6 +431,14 @@ var opsTargets = []opsTarget{
 	{"syncutil/sema.go", "", "NewChanSemaphore", "gen_ops_NewChanSemaphore"},
 	{"syncutil/sema.go", "ChanSemaphore", "Acquire", "gen_ops_ChanSemaphore_Acquire"},
 	{"syncutil/sema.go", "ChanSemaphore", "Release", "gen_ops_ChanSemaphore_Release"},
+	{"service/signal.go", "SignalHandler", "Handle", "gen_ops_SignalHandler_Handle"},
+	{"service/signal.go", "SignalHandler", "shutdownService", "gen_ops_SignalHandler_shutdownService"},
+	{"service/signal.go", "SignalHandler", "shutdown", "gen_ops_SignalHandler_shutdown"},
+	{"service/refreshworker.go", "", "NewRefreshWorker", "gen_ops_NewRefreshWorker"},
+	{"service/refreshworker.go", "RefreshWorker", "Start", "gen_ops_RefreshWorker_Start"},
+	{"service/refreshworker.go", "RefreshWorker", "refreshInALoop", "gen_ops_RefreshWorker_refreshInALoop"},
+	{"service/refreshworker.go", "RefreshWorker", "refresh", "gen_ops_RefreshWorker_refresh"},
+	{"service/refreshworker.go", "RefreshWorker", "Shutdown", "gen_ops_RefreshWorker_Shutdown"},
 }
 
 func init() {
